@@ -293,3 +293,22 @@ pub fn with_scale<S: Src>(s: &mut S, f: impl Fn(&mut S, TimeScale)) {
         _ => f(s, TimeScale::QZSST),
     }
 }
+
+/// exact difference of two canonical durations as canonical parts (None if out of range); no products
+pub fn sub_parts(a: (i16, u64), b: (i16, u64)) -> Option<(i16, u64)> {
+    let mut c = a.0 as i32 - b.0 as i32;
+    let mut n = a.1 as i128 - b.1 as i128;
+    if n < 0 {
+        n += NPC as i128;
+        c -= 1;
+    }
+    if n >= NPC as i128 {
+        n -= NPC as i128;
+        c += 1;
+    }
+    if c < i16::MIN as i32 || c > i16::MAX as i32 {
+        None
+    } else {
+        Some((c as i16, n as u64))
+    }
+}
